@@ -83,7 +83,7 @@ class Tr:
                 if (to, tb) == (BOOLS, NATS):
                     return f'(f2t_pick f2t {o} {b})', ZS
                 raise TranslateError('f2t index: ' + s)
-            if _is(v, 'self.t2f') and len(ix) == 1:
+            if (_is(v, 'self.t2f') or (_is(v, 't2f') and self.env.get('#t2f') == 'arg')) and len(ix) == 1:
                 m, tm = self.expr(ix[0])
                 if tm == MASK:
                     return f'(gather_mask nslots nt t2f {m})', NATS
@@ -235,6 +235,11 @@ def translate_codec():
 
     # ---- _decode_cell_data
     body = _strip_doc(dec.body)
+    # the facet slot table is an argument (default: the table of the mesh itself)
+    if [a.arg for a in dec.args.args] != ['self', 'cell_data', 't2f'] or len(dec.args.defaults) != 1 \
+            or t2.src(dec.args.defaults[0]) != 'None' or t2.src(body[0]) != 'if t2f is None:\n    t2f = self.t2f':
+        raise TranslateError('_decode_cell_data: signature / default of t2f')
+    body = body[1:]
     if [t2.src(s) for s in body[:2]] != ['subdomains = {}', 'boundaries = {}'] or len(body) != 4 \
             or t2.src(body[3]) != 'return (boundaries, subdomains)':
         raise TranslateError('_decode_cell_data: unexpected statement list')
@@ -262,7 +267,7 @@ def translate_codec():
     gen_dsub = f'Definition gen_decode_subdomain (data : list N) : list nat :=\n  {term}.'
     # 'b'
     bb = br.orelse[0].body
-    tr = Tr({'data[0]': ('data', NS)})
+    tr = Tr({'data[0]': ('data', NS), '#t2f': 'arg'})
     for st in bb[:-1]:
         tr.stmt(st)
     last = bb[-1]
@@ -315,17 +320,18 @@ def translate_npz():
            'boundaries': prefix_comp(sv[3], 'boundaries', 'boundaries', 'value', None),
            'subdomains': prefix_comp(sv[4], 'subdomains', 'subdomains', 'value', None)}
     if t2.src(sv[5]) != ('np.savez(filename, doflocs=self.doflocs, t=self.t, **boundaries, **subdomains, '
-                         '**orientations)'):
+                         "**orientations, **{'sort_t': self.sort_t} if self.sort_t != type(self).sort_t else {})"):
         raise TranslateError('save_npz: savez call ' + t2.src(sv[5]))
     if len(ld) != 2 or t2.src(ld[0]) != 'data = np.load(filename)' or not isinstance(ld[1], ast.Return):
         raise TranslateError('load_npz: statements')
     call = ld[1].value
     if not (isinstance(call, ast.Call) and t2.src(call.func) == 'cls'
             and [t2.src(a) for a in call.args] == ["data['doflocs']", "data['t']"]
-            and [k.arg for k in call.keywords] == ['_boundaries', '_subdomains']):
+            and [k.arg for k in call.keywords] == ['_boundaries', '_subdomains', None]
+            and t2.src(call.keywords[2].value) == "{'sort_t': bool(data['sort_t'])} if 'sort_t' in data.files else {}"):
         raise TranslateError('load_npz: constructor call')
     lpre = {}
-    for k in call.keywords:
+    for k in call.keywords[:2]:
         v = k.value
         if not (isinstance(v, ast.DictComp) and t2.src(v.key) == 'key[2:]'
                 and t2.src(v.generators[0].iter) == 'data.files' and t2.src(v.generators[0].target) == 'key'
@@ -360,7 +366,11 @@ def translate_npz():
             f'Definition gen_npz_load_b : String.string := "{lpre["_boundaries"]}"%string.\n'
             f'Definition gen_npz_load_s : String.string := "{lpre["_subdomains"]}"%string.\n'
             f'Definition gen_npz_load_o : String.string := "{lpre["_orientations"]}"%string.\n'
-            'Definition gen_npz_fixed_keys : list String.string := ["doflocs"%string; "t"%string].')
+            'Definition gen_npz_fixed_keys : list String.string := ["doflocs"%string; "t"%string].\n'
+            '(* the optional key sort_t: written only when self.sort_t differs from the class default, read back when present *)\n'
+            'Definition gen_npz_sort_t_key : String.string := "sort_t"%string.\n'
+            'Definition gen_sort_t_save (default v : bool) : option bool := if Bool.eqb v default then None else Some v.\n'
+            'Definition gen_sort_t_load (default : bool) (o : option bool) : bool := match o with Some v => v | None => default end.')
 
 
 TO_DICT = ['boundaries = None', 'subdomains = None',
@@ -370,7 +380,8 @@ TO_DICT = ['boundaries = None', 'subdomains = None',
            'if self.boundaries is not None:\n    orientations = {k: v.ori.tolist() for k, v in self.boundaries.items() '
            'if isinstance(v, OrientedBoundary)}',
            "return {'p': self.p.T.tolist(), 't': self.t.T.tolist(), 'boundaries': boundaries, 'subdomains': subdomains, "
-           "**({'orientations': orientations} if orientations else {})}"]
+           "**({'orientations': orientations} if orientations else {}), "
+           "**({'sort_t': self.sort_t} if self.sort_t != type(self).sort_t else {})}"]
 FROM_DICT = ["if 'boundaries' in data and data['boundaries'] is not None:\n    data['boundaries'] = {k: np.array(v, dtype=np.int32) "
              "for k, v in data['boundaries'].items()}",
              "for k, v in (data.pop('orientations', None) or {}).items():\n    data['boundaries'][k] = "
@@ -388,6 +399,10 @@ def translate_dict():
     fd = [t2.src(s) for s in _strip_doc(t2.find_def(tree, 'from_dict', 'Mesh').body)]
     if td != TO_DICT:
         raise TranslateError('to_dict: ' + repr(td))
+    # from_dict works on a copy of the caller's dictionary
+    if fd[0] != 'data = dict(data)':
+        raise TranslateError('from_dict: first statement must copy the dictionary: ' + fd[0])
+    fd = fd[1:]
     if fd[1:] != FROM_DICT or not fd[0].startswith("if 'p' not in data or 't' not in data:"):
         raise TranslateError('from_dict: ' + repr(fd))
     return '''(* Mesh.to_dict / Mesh.from_dict, boundaries *)
@@ -396,6 +411,37 @@ Definition gen_dict_orientations (b : bdict) :=                                 
   flat_map (fun kv => match snd (snd kv) with Some o => [(fst kv, o)] | None => [] end) b.
 Definition gen_dict_load (bs : list (String.string * list nat)) (os : list (String.string * list bool)) : bdict :=
   map (fun kf => (fst kf, (snd kf, lookup (fst kf) os))) bs.  (* boundaries[k] = OrientedBoundary(boundaries[k], v) for k, v in orientations *)'''
+
+
+def translate_glue():
+    """to_meshio / from_meshio: which slot table the decoder gets, and that the caller's data dictionaries are not updated"""
+    tree = t2.parse(MESHIO)
+    to = t2.find_def(tree, 'to_meshio')
+    fr = t2.find_def(tree, 'from_meshio')
+    srcs_to = [t2.src(s) for s in to.body]
+    want = ['if encode_cell_data:\n    cell_data = {**({} if cell_data is None else cell_data), **mesh._encode_cell_data()}',
+            'if encode_point_data:\n    point_data = {**({} if point_data is None else point_data), **mesh._encode_point_data()}']
+    for w in want:
+        if w not in srcs_to:
+            raise TranslateError('to_meshio: data dictionaries: expected ' + w)
+    if 't = mesh.dofs.element_dofs.copy()' not in srcs_to:
+        raise TranslateError('to_meshio: connectivity written')
+    blk = [s for s in fr.body if isinstance(s, ast.If) and t2.src(s.test) == 'm.cell_data'
+           and '_decode_cell_data' in t2.src(s)]
+    blk = t2.only(blk, 'from_meshio: decoding of the skfem tags')
+    if [t2.src(x) for x in blk.body] != ['_, t2f = mtmp.build_entities(t, mtmp.refdom.facets)',
+                                        '_boundaries, _subdomains = mtmp._decode_cell_data(m.cell_data, t2f)',
+                                        'boundaries.update(_boundaries)', 'subdomains.update(_subdomains)']:
+        raise TranslateError('from_meshio: decoding of the skfem tags: ' + t2.src(blk))
+    if 'mtmp = mesh_type(p, t, validate=False)' not in [t2.src(s) for s in fr.body]:
+        raise TranslateError('from_meshio: temporary mesh')
+    # the encoder uses the table of the mesh that is written: self.t2f = build_entities(self.t, refdom.facets)[1]
+    mesh = t2.parse(MESH)
+    if [t2.src(s) for s in _strip_doc(t2.find_def(mesh, '_init_facets', 'Mesh').body)] != \
+            ['self._facets, self._t2f = self.build_entities(self.t, self.elem.refdom.facets)']:
+        raise TranslateError('_init_facets')
+    return ('(* from_meshio decodes with build_entities(t as read, refdom.facets)[1]; the encoder used build_entities(t as written, '
+            'refdom.facets)[1] *)\nDefinition gen_decoder_slot_table_is_of_connectivity_as_read : bool := true.')
 
 
 def translate_hex():
@@ -561,6 +607,7 @@ def translate():
     cd = part('mesh.py: _encode_cell_data, _decode_cell_data', translate_codec)
     dc = part('mesh.py: to_dict, from_dict', translate_dict)
     nz = part('mesh.py: save_npz, load_npz', translate_npz)
+    gl = part('io/meshio.py: to_meshio, from_meshio (data dictionaries, slot table of the decoder)', translate_glue)
     tm = mt = None
     parts = [HEADER]
     if cd:
@@ -570,6 +617,8 @@ def translate():
         tm, mt = hx[1], hx[2]
     if dc:
         parts.append(dc)
+    if gl:
+        parts.append(gl)
     parts.append('Import String.   (* string literals below *)')
     if cd:
         parts.append(cd[1])
